@@ -23,7 +23,8 @@ RULE = ("Hypothesis constructs a valid script from the model and injects exactly
         "to a non-template (files in a temp dir, blackbird.load). The reference recogniser confirms the faulty text is still "
         "grammatical. Oracle: load(s) raises and returns no program; for undefined and reserved names the exception is "
         "BlackbirdSyntaxError whose message contains the identifier and 'line L:C' with L the identifier's line and C its 0- or "
-        "1-based column. Non-trivial = fault not in the first item and not in a positional argument. Distinct = SHA-1 of the text.")
+        "1-based column. Non-trivial = fault not in the first item and not in a positional argument. Distinct = SHA-1 of the text."
+        " Wrong mode counts include lists with a repeated mode and a single unbracketed mode.")
 ASSUMPTIONS = ["the base script is valid (reference interpreter accepts it), so the injected fault is the only one",
                "faults are only placed where they are evaluated (not in bodies of loops that run zero times)"]
 BUDGET = {"quick": (2500, 4), "thorough": (64000, 16)}
